@@ -44,6 +44,13 @@ def gen_domain(rng, n_actions=4, with_forall=True, with_numeric=True, noise=Fals
             acts.append(("addn", [["?x", "t2"], ["?y", narrow]], L(), L(S("and"), L(S("q"), S("?x"), S("?y")))))
             acts.append(("delb", [["?x", "t1"], ["?y", "object"]], L(S("and"), L(S("q"), S("?x"), S("?y"))),
                          L(S("and"), L(S("not"), L(S("q"), S("?x"), S("?y"))))))
+    if with_numeric and rng.random() < 0.4:
+        # a fluent changed by the action and read by a numeric effect under a forall of the same action
+        # (every right-hand side is read in the state before the action)
+        acts.append(("bump", [["?x", "t1"]], L(),
+                     L(S("and"), L(S("increase"), L(S("g")), N(1)),
+                       L(S("forall"), L(S("?z"), S("-"), S("t1")),
+                         L(S("when"), L(S("p"), S("?z")), L(S("assign"), L(S("f"), S("?z")), L(S("+"), L(S("g")), L(S("f"), S("?x")))))))))
     types = None
     if rng.random() < 0.4:      # type declarations in another order (children before their parents)
         types = list(gen_core.TYPES)
